@@ -140,7 +140,8 @@ def single_suite(ctx, oracles, gen_kwargs_list, count, items=None):
             p = S.random_problem(rng, **kw)
             K = G.problem_K(p)
             cats = G.category_pool(K, rng)
-            gram = G.TableGrammar(cats, p.bin, p.un)
+            # every fourth grammar labels its results independently of their position: the same result may occur twice
+            gram = G.TableGrammar(cats, p.bin, p.un, plain_labels=(len(items) % 4 == 3))
             toks = G.tokens_for(p)
             items.append((p, cats, gram, toks, None))
     # very long searches are not sent to the (quadratic) model
@@ -683,3 +684,57 @@ def lazy_suite(ctx, count, batch=False):
     ctx.extra['lazy_parsed_sentences' + ('_batch' if batch else '')] = parsed
     ctx.extra['lazy_rejected_duplicate_lists' + ('_batch' if batch else '')] = rejected
     ctx.extra['lazy_chunked_calls' + ('_batch' if batch else '')] = chunked
+
+
+def option_sequence_scenario(ctx, rounds):
+    """several depccg.parsing.run calls in ONE process with the SAME grammar functions and documents longer
+    than max_chunk_size (worker pool), each call with its own beam / n-best options: every call must be
+    decided by its own options (leaf tags admitted under them, result = the single-process result)"""
+    import importlib
+    C11 = importlib.import_module('checks.C11')
+    rng = ctx.rng
+    if not ensure_native(ctx):
+        return
+    parsing = native.setup()['parsing']
+    done = 0
+    for _ in range(rounds):
+        base, cats, gram, sents = C11.make_batch(rng, rng.randint(21, 24))
+        base.nbest = 1
+        doc = [G.tokens_for(p, tag=str(i)) for i, p in enumerate(sents)]
+        scores = [G.scoring(p) for p in sents]
+        settings = [dict(pruning=50, use_beta=False, beta=0.5), dict(pruning=1, use_beta=False, beta=0.5),
+                    dict(pruning=50, use_beta=True, beta=0.5), dict(pruning=2, use_beta=True, beta=0.1)]
+        rng.shuffle(settings)
+        for st in settings[:3]:
+            for p in sents:
+                p.pruning, p.use_beta, p.beta, p.nbest = st['pruning'], st['use_beta'], st['beta'], 1
+            desc = dict(scenario='several run calls, same grammar functions, worker pool', options=st, sentences=len(sents),
+                        categories=[str(c) for c in cats])
+            try:
+                kw = dict(unary_penalty=base.penalty / S.SCALE, beta=st['beta'], use_beta=st['use_beta'], pruning_size=st['pruning'], nbest=1,
+                          max_step=base.max_step)
+                pooled = parsing.run(doc, scores, cats[:base.T], [cats[r] for r in base.roots], gram.binary, gram.unary,
+                                     processes=2, max_chunk_size=20, **kw)
+                plain = parsing.run(doc, scores, cats[:base.T], [cats[r] for r in base.roots], gram.binary, gram.unary,
+                                    processes=1, max_chunk_size=1000, **kw)
+            except Exception as e:
+                ctx.fail(f'depccg.parsing.run raised {type(e).__name__}: {e}', desc, fingerprint=['option-seq-raise'])
+                break
+            ctx.evaluations += 1
+            bad = None
+            for si, (p, toks, trees) in enumerate(zip(sents, doc, pooled)):
+                if len(trees) == 1 and trees[0].score == -float('inf'):
+                    continue
+                admitted = S.admitted_tags(p)
+                why = validate_real_tree(p, cats, gram, toks, trees[0].tree, admitted)
+                if why:
+                    bad = f'sentence {si}: ' + why + f' (options of this call: {st})'
+                    break
+            if bad is None and G.canon_results(pooled) != G.canon_results(plain):
+                k = next(i for i, (a, b) in enumerate(zip(G.canon_results(pooled), G.canon_results(plain))) if a != b)
+                bad = f'sentence {k}: the result through the worker pool differs from the result of one call in this process (options {st})'
+            if bad:
+                ctx.fail(bad, desc, fingerprint=['option-seq'])
+                break
+            done += 1
+    ctx.extra['option_sequence_calls'] = done
